@@ -395,7 +395,11 @@ def make_wiring_harness(alg_name, nblocks, ninf, with_scope):
         if with_scope:
             scope["diag"] = user_diag
         clo = Closure(node, Env(None, {}), "series_computation")
-        res = eng.call(clo, [{"H": H}, SNative(object())], {"scope": scope, "operator": op})
+        # a second input series that the algorithm does not use (series_computation accepts any number of inputs): listed AFTER "H", so that
+        # anything that confuses the inputs (e.g. closures sharing a loop variable) shows up at "H"
+        G2 = SSeries("G_extra_input", nblocks, nblocks, ninf)
+        G2.dimension_names = "dims"
+        res = eng.call(clo, [{"H": H, "G_extra_input": G2}, SNative(object())], {"scope": scope, "operator": op})
         out = eng.as_seq(res).items
         series, lo = out[0], out[1]
         sdefs = alg.series_by_name()
@@ -455,7 +459,15 @@ def make_wiring_harness(alg_name, nblocks, ninf, with_scope):
             r = eng.call(clH.kw["eval"], [0, nblocks - 1] + [3] * ninf, {})
             okH = isinstance(r, SObj) and r.origin is not None and r.origin[0] is H and lo_wrap_calls and lo_wrap_calls[-1] is r
         eng.oblige("wiring:lo-twin-of-input-series", z3.BoolVal(bool(okH)), detail="linear_operator_series['H'][index] = aslinearoperator(H[index])")
-        eng.oblige("wiring:no-extra-series", z3.BoolVal(set(series) == {"H"} | set(sdefs) | {p.name for p in alg.products}),
+        clG = lo.get("G_extra_input")
+        okG = isinstance(clG, Created) and isinstance(clG.kw.get("eval"), Closure)
+        if okG:
+            lo_wrap_calls.clear()
+            r = eng.call(clG.kw["eval"], [0, nblocks - 1] + [3] * ninf, {})
+            okG = isinstance(r, SObj) and r.origin is not None and r.origin[0] is G2 and lo_wrap_calls and lo_wrap_calls[-1] is r
+        eng.oblige("wiring:lo-twin-of-every-input-series-wraps-that-series", z3.BoolVal(bool(okG)))
+        eng.oblige("wiring:input-series-kept-under-their-keys", z3.BoolVal(series.get("H") is H and series.get("G_extra_input") is G2))
+        eng.oblige("wiring:no-extra-series", z3.BoolVal(set(series) == {"H", "G_extra_input"} | set(sdefs) | {p.name for p in alg.products}),
                    detail=f"{sorted(series)}")
         for p in alg.products:
             for which, nm in ((series, "series"), (lo, "linear_operator_series")):
